@@ -402,7 +402,7 @@ def collapse_one(
                 # Not an error, could be another instance with our name.
                 continue
             # Output.combine(), but in-place.
-            out.target = proxy_out.target
+            out.target = inst.fixup_name(inst.fixup.substitute(proxy_out.target, ''))
             out.input = proxy_out.input
             out.inst_in = None
             if proxy_out.params:
